@@ -966,12 +966,21 @@ def build_unit(unit_dir, out_dir):
     # vacuity files: function entries and loop bodies are probed in separate files (a failed entry probe is assumed
     # afterwards, which would make loop probes of non-isolated loops pass trivially)
     info["vac_probes"] = []
-    for fname, sel in (("unit_vac.rs", lambda w: w.endswith("::entry")), ("unit_vac2.rs", lambda w: not w.endswith("::entry"))):
+    # a failed probe is assumed afterwards, which makes every later probe on the same path pass trivially (function entry
+    # before its loops; loop 1 before loop 2 when loops are not isolated): the k-th probe of every function goes to file k
+    by_fn = {}
+    for (ln, what) in sorted(info["vac_points"]):
+        fnname = what.rsplit("::", 1)[0]
+        by_fn.setdefault(fnname, []).append((ln, what))
+    groups = {}
+    for fnname, pts in by_fn.items():
+        pts.sort(key=lambda x: (0 if x[1].endswith("::entry") else 1, x[0]))
+        for k, pt in enumerate(pts):
+            groups.setdefault(k, []).append(pt)
+    for k in sorted(groups):
+        fname = "unit_vac.rs" if k == 0 else f"unit_vac{k + 1}.rs"
         vac_lines = text.split("\n")
-        pts = [(ln, what) for (ln, what) in info["vac_points"] if sel(what)]
-        if not pts:
-            continue
-        for (ln, what) in sorted(pts, reverse=True):
+        for (ln, what) in sorted(groups[k], reverse=True):
             vac_lines.insert(ln, "    assert(false); // VACUITY-PROBE " + what)
         for idx, l in enumerate(vac_lines, 1):
             if "// VACUITY-PROBE " in l:
